@@ -15,8 +15,7 @@ from gradysim.simulator.node import Node
 
 def _comm(c):
     return "comm %s %s %s" % ("bcast" if c.command_type == CommunicationCommandType.BROADCAST else "send", c.message,
-                              "none" if c.destination is None else
-                              (c.destination if c.destination >= 0 else 5000 - c.destination))   # as scripted._act_str
+                              S.canon_dst(c.destination))
 
 
 def _mob(c):
